@@ -257,6 +257,54 @@ func VH_udp_idle() {
 	}
 }
 
+// VH_udp_burst: one client sends a burst longer than the per-client queue (5) while
+// its handler is slow: whatever is delivered is delivered in arrival order, once.
+func VH_udp_burst() {
+	n := vapi.Param("DGRAMS", 8)
+	pc := &scriptPC{shutdown: make(chan struct{})}
+	for i := 0; i < n; i++ {
+		pc.script = append(pc.script, dgram{0, []byte{byte(i + 1)}})
+	}
+	var seen []byte
+	conns := 0
+	rl := layer4.RouteList{layer4.VerifNewRoute(nil, []layer4.NextHandler{burstHandler{&seen, &conns}})}
+	s := layer4.VerifNewServer(rl, 3*time.Second)
+	go func() { _ = layer4.VerifServePacket(s, pc) }()
+	vapi.Yield()
+	vapi.Advance(31 * time.Second)
+	close(pc.shutdown)
+	vapi.Yield()
+	vapi.Cover("served")
+	last := byte(0)
+	for _, b := range seen {
+		vapi.Assert(b > last, "datagrams of one client were delivered out of arrival order or twice")
+		last = b
+	}
+	if len(seen) > 5 {
+		vapi.Cover("more than the queue capacity delivered")
+	}
+	vapi.Assert(len(seen) == n, "a datagram of the burst was lost although its connection was alive and reading")
+}
+
+type burstHandler struct {
+	seen  *[]byte
+	conns *int
+}
+
+func (h burstHandler) Handle(cx *layer4.Connection, _ layer4.Handler) error {
+	*h.conns++
+	for {
+		p := make([]byte, 8)
+		k, err := cx.Read(p)
+		if err != nil {
+			return nil
+		}
+		if k == 1 {
+			*h.seen = append(*h.seen, p[0])
+		}
+	}
+}
+
 // VH_partial: a datagram larger than the reader's buffer is returned by
 // successive reads exactly once, in order; then the next datagram follows.
 func VH_partial() {
@@ -307,5 +355,6 @@ func bytesEq(a, b []byte) bool {
 func init() {
 	vapi.Register("c09.VH_udp", VH_udp)
 	vapi.Register("c09.VH_udp_idle", VH_udp_idle)
+	vapi.Register("c09.VH_udp_burst", VH_udp_burst)
 	vapi.Register("c09.VH_partial", VH_partial)
 }
